@@ -50,10 +50,13 @@ type reader struct {
 	sched     func(req int) int // bytes to return for this call (>=1), given len(p)
 	eofJoined bool
 	errAt     int // inject a non-EOF error at the Read call that would start at/after this offset (-1: never)
-	w         *tr.W
-	reads     int
-	maxReads  int
-	exceeded  bool
+	// how the error arrives: the error value (injected / io.ErrUnexpectedEOF as net/http gives for a short body), alone or
+	// together with data that fills the whole request, once only or on every later call as well
+	errUx, errWithData, errOnce, errDone, errFired bool
+	w                                              *tr.W
+	reads                                          int
+	maxReads                                       int
+	exceeded                                       bool
 }
 
 func clamp(n int) int {
@@ -69,11 +72,23 @@ func (r *reader) Read(p []byte) (int, error) {
 		r.exceeded = true
 		return 0, errors.New("read bound exceeded")
 	}
-	if r.errAt >= 0 && r.pos >= r.errAt {
-		r.w.Emit(tr.E{"ev": "read", "pos": r.pos, "req": clamp(len(p)), "n": 0, "eof": false, "err": true})
-		return 0, errInjected
-	}
 	left := len(r.data) - r.pos
+	if r.errAt >= 0 && r.pos >= r.errAt && !r.errDone {
+		var e error = errInjected
+		if r.errUx {
+			e = io.ErrUnexpectedEOF
+		}
+		r.errDone = r.errOnce
+		n := 0
+		if r.errWithData && !r.errFired {
+			n = min(len(p), left)
+			copy(p, r.data[r.pos:r.pos+n])
+		}
+		r.errFired = true
+		r.w.Emit(tr.E{"ev": "read", "pos": r.pos, "req": clamp(len(p)), "n": n, "eof": false, "err": true})
+		r.pos += n
+		return n, e
+	}
 	if left == 0 {
 		r.w.Emit(tr.E{"ev": "read", "pos": r.pos, "req": clamp(len(p)), "n": 0, "eof": true, "err": false})
 		return 0, io.EOF
@@ -134,6 +149,8 @@ type scenario struct {
 	cbErrAt   int
 	buf0      int
 	desc      string
+	// reader error shape (see reader)
+	errUx, errWithData, errOnce bool
 }
 
 type stats struct {
@@ -145,10 +162,11 @@ type stats struct {
 func runOne(w *tr.W, sc scenario, st *stats, modelOut *genLine) {
 	boxes, wf := walk(sc.data)
 	w.Emit(tr.E{"ev": "hdr", "sc": st.scen, "len": len(sc.data), "boxes": boxes, "wf": wf, "errAt": sc.errAt,
-		"cbErrAt": sc.cbErrAt, "buf0": sc.buf0, "eofJoined": sc.eofJoined, "desc": sc.desc})
+		"cbErrAt": sc.cbErrAt, "buf0": sc.buf0, "eofJoined": sc.eofJoined, "desc": sc.desc,
+		"errUx": sc.errUx, "errWithData": sc.errWithData, "errOnce": sc.errOnce})
 	st.scen++
 	rd := &reader{data: sc.data, sched: sc.sched, eofJoined: sc.eofJoined, errAt: sc.errAt, w: w,
-		maxReads: 4*len(sc.data) + 64}
+		errUx: sc.errUx, errWithData: sc.errWithData, errOnce: sc.errOnce, maxReads: 4*len(sc.data) + 64}
 	type cbrec struct {
 		start, n int
 		init     bool
@@ -187,7 +205,7 @@ func runOne(w *tr.W, sc scenario, st *stats, modelOut *genLine) {
 		kind := ""
 		switch {
 		case err == nil:
-		case errors.Is(err, errInjected):
+		case errors.Is(err, errInjected), sc.errUx && errors.Is(err, io.ErrUnexpectedEOF):
 			kind = "reader"
 		case errors.Is(err, errCallback):
 			kind = "callback"
@@ -336,6 +354,44 @@ func Main(args []string) error {
 				bs[len(bs)-2].Real = bs[len(bs)-2].S
 			}
 		}
+		// chunk sequences from a small size alphabet, with optional prft/emsg/styp boxes in front of a moof, so that a box of
+		// one chunk often ends at the offset at which the previous chunk ended (lengths coincide); every second one has the
+		// coincidence built in
+		if rng.Intn(4) == 0 {
+			bs = bs[:0]
+			if rng.Intn(2) == 0 {
+				bs = append(bs, box{"styp", 16, 16})
+			}
+			prev := 0
+			for k := 0; k < 2+rng.Intn(6); k++ {
+				var ch []box
+				lead := []string{"prft", "emsg", "styp", "free"}[rng.Intn(4)]
+				switch {
+				case prev > 16 && rng.Intn(2) == 0 && prev-8*(1+rng.Intn(3)) >= 8:
+					a := 8 * (1 + rng.Intn(3))
+					if prev-a >= 8 { // lead + moof end exactly where the previous chunk ended
+						ch = append(ch, box{lead, a, a}, box{"moof", prev - a, prev - a})
+					}
+				case prev >= 8 && rng.Intn(2) == 0: // the first box alone has the previous chunk's length
+					ch = append(ch, box{[]string{lead, "moof"}[rng.Intn(2)], prev, prev})
+				}
+				if len(ch) == 0 || ch[len(ch)-1].T != "moof" {
+					if rng.Intn(3) == 0 {
+						a := 8 * (1 + rng.Intn(4))
+						ch = append(ch, box{lead, a, a})
+					}
+					a := 8 * (1 + rng.Intn(6))
+					ch = append(ch, box{"moof", a, a})
+				}
+				m := 8 * (1 + rng.Intn(5))
+				ch = append(ch, box{"mdat", m, m})
+				prev = 0
+				for _, x := range ch {
+					prev += x.S
+				}
+				bs = append(bs, ch...)
+			}
+		}
 		corrupt := ""
 		if rng.Intn(3) == 0 && st.hangs < 3 {
 			i := rng.Intn(len(bs))
@@ -366,8 +422,9 @@ func Main(args []string) error {
 			sched, sname := schedFor(k%4+(k/4)*3, len(stream))
 			sc := scenario{data: stream, sched: sched, eofJoined: rng.Intn(2) == 0, errAt: -1, cbErrAt: -1,
 				buf0: bufSizes(len(stream))[rng.Intn(7)]}
-			if rng.Intn(8) == 0 && len(stream) > 0 {
+			if rng.Intn(6) == 0 && len(stream) > 0 {
 				sc.errAt = rng.Intn(len(stream) + 1)
+				sc.errUx, sc.errWithData, sc.errOnce = rng.Intn(2) == 0, rng.Intn(2) == 0, rng.Intn(2) == 0
 			} else if rng.Intn(8) == 0 {
 				sc.cbErrAt = 1 + rng.Intn(3)
 			}
@@ -408,8 +465,9 @@ func Main(args []string) error {
 			}
 			sc := scenario{data: data, sched: sched, eofJoined: k%2 == 0, errAt: -1, cbErrAt: -1,
 				buf0: bufSizes(len(data))[rng.Intn(7)], desc: "real " + names[ri] + " " + sname}
-			if k%11 == 10 {
+			if k%11 == 10 || k%7 == 5 {
 				sc.errAt = rng.Intn(len(data) + 1)
+				sc.errUx, sc.errWithData, sc.errOnce = rng.Intn(2) == 0, rng.Intn(2) == 0, rng.Intn(2) == 0
 			}
 			if k%13 == 12 {
 				sc.cbErrAt = 1 + rng.Intn(2)
